@@ -720,7 +720,9 @@ fn fault_case(idx: Idx, call: &Call, dirty_op: &Op, i: u64, answer: vcore::ctlst
 // ---------------------------------------------------------------------------
 // Part D: poison by cancellation while another call is in flight, then reopen
 
-fn poison_race_case(idx: Idx, victim: &Op, survivor: &Op, ch: &mut Chooser) -> RaceResult {
+/// `via_close`: the caller first asks the database to close the (poisoned)
+/// collection - which fails - and then opens it again.
+fn poison_race_case(idx: Idx, victim: &Op, survivor: &Op, via_close: bool, ch: &mut Chooser) -> RaceResult {
     let (mut live, model) = setup(idx, true);
     let coll = live.fx.coll.clone();
     let db = live.fx.db.clone();
@@ -771,6 +773,9 @@ fn poison_race_case(idx: Idx, victim: &Op, survivor: &Op, ch: &mut Chooser) -> R
                 // the caller notices the poisoned handle and reopens through the same database
                 let (d2, r2) = (db.clone(), reopened.clone());
                 sched.spawn("reopen", async move {
+                    if via_close {
+                        let _ = d2.close_collection(fixture::COLL_NAME).await;
+                    }
                     let r = fixture::open_coll_with(&d2, idx, idx).await.map_err(|e| format!("{e:?}"));
                     *r2.borrow_mut() = Some(r);
                 });
@@ -854,7 +859,7 @@ fn main() {
             let survivor: Op = serde_json::from_value(r["survivor"].clone()).unwrap();
             let choices: Vec<u32> = serde_json::from_value(r["choices"].clone()).unwrap();
             let mut ch = Chooser::new(choices);
-            let res = poison_race_case(idx, &victim, &survivor, &mut ch);
+            let res = poison_race_case(idx, &victim, &survivor, r["via_close"].as_bool().unwrap_or(false), &mut ch);
             if let Some(d) = ch.diverged {
                 vcore::report::machinery(&format!("replay diverged: {d}"));
             }
@@ -994,17 +999,20 @@ fn main() {
     // ---- Part D: poison by cancellation with a survivor in flight, then reopen
     let mut outcome_kinds = std::collections::BTreeSet::new();
     {
-        let pairs = vec![
+        let pairs0 = vec![
             (Op::Update(1, 0), Op::Update(2, 8)),
             (Op::Update(1, 0), Op::Remove(2)),
             (Op::Remove(1), Op::Update(2, 8)),
             (Op::Add(3), Op::Update(2, 8)),
             (Op::Update(1, 8), Op::Add(3)),
         ];
+        // each pair twice: plain reopen, and close_collection (fails on the poisoned handle) then reopen
+        let pairs: Vec<(Op, Op, bool)> = pairs0.iter().flat_map(|(a, b)| [(a.clone(), b.clone(), false), (a.clone(), b.clone(), true)]).collect();
         let bound = run.tier.pick(2, 3);
         struct PrOut {
             v: Op,
             s: Op,
+            via_close: bool,
             machinery: Option<String>,
             found: Vec<(Vec<u32>, Vec<(String, String)>)>,
             execs: u64,
@@ -1012,10 +1020,10 @@ fn main() {
             keys: Vec<u64>,
             capped: bool,
         }
-        let outs = util::par_map(pairs, threads, |(v, sv)| {
-            let mut po = PrOut { v: v.clone(), s: sv.clone(), machinery: None, found: vec![], execs: 0, steps: 0, keys: vec![], capped: false };
-            let a = poison_race_case(idx, &v, &sv, &mut Chooser::new(vec![]));
-            let b = poison_race_case(idx, &v, &sv, &mut Chooser::new(vec![]));
+        let outs = util::par_map(pairs, threads, |(v, sv, via_close)| {
+            let mut po = PrOut { v: v.clone(), s: sv.clone(), via_close, machinery: None, found: vec![], execs: 0, steps: 0, keys: vec![], capped: false };
+            let a = poison_race_case(idx, &v, &sv, via_close, &mut Chooser::new(vec![]));
+            let b = poison_race_case(idx, &v, &sv, via_close, &mut Chooser::new(vec![]));
             if a.labels != b.labels || a.outcome_key != b.outcome_key {
                 po.machinery = Some("nondeterministic replay".into());
                 return po;
@@ -1026,7 +1034,7 @@ fn main() {
                 deadline,
                 u64::MAX,
                 |ch| {
-                    let r = poison_race_case(idx, &v, &sv, ch);
+                    let r = poison_race_case(idx, &v, &sv, via_close, ch);
                     (r, ch.diverged.clone())
                 },
                 |choices, (r, div)| {
@@ -1055,14 +1063,14 @@ fn main() {
             run.add("evaluations", po.execs);
             run.add("transitions", po.steps);
             run.add("poison_race_executions", po.execs);
-            run.distinct(util::fnv64(format!("poison {:?} {:?}", po.v, po.s).as_bytes()));
+            run.distinct(util::fnv64(format!("poison {:?} {:?} {}", po.v, po.s, po.via_close).as_bytes()));
             outcome_kinds.extend(po.keys);
             for (choices, ps) in po.found {
                 for (sig, msg) in ps {
                     run.violation(Violation {
                         signature: format!("C06|{sig}"),
-                        summary: format!("cancel {:?} while {:?} is in flight, then reopen; schedule {choices:?}: {msg}", po.v, po.s),
-                        replay: json!({"kind": "poison-race", "victim": po.v, "survivor": po.s, "choices": choices}),
+                        summary: format!("cancel {:?} while {:?} is in flight, then {}reopen; schedule {choices:?}: {msg}", po.v, po.s, if po.via_close { "close_collection + " } else { "" }),
+                        replay: json!({"kind": "poison-race", "victim": po.v, "survivor": po.s, "via_close": po.via_close, "choices": choices}),
                     });
                 }
             }
@@ -1199,7 +1207,7 @@ fn main() {
     run.add("states", (outcome_kinds.len() + cancel_states.len()) as u64);
     run.set("completed", json!(completed));
     run.set("cancel_handle_states", json!(cancel_states));
-    run.rule("fault: close / close_collection / flush with each of 4 unflushed acknowledged ops, every backend mutation of the call answered ErrBefore and ErrAfter: a non-Active handle rejects everything and writes nothing, reopening through the same database satisfies the C01/C02 oracles; poison-race: a call cancelled at any suspension point (a deviation) while another call is in flight, the caller then reopens through the same database concurrently with the survivor, all schedules within the bound: the reopened handle satisfies the C01/C02 oracles with the survivor acknowledged and the victim all-or-nothing; cancel: each of 14 mutating APIs (clean and dirty collection) dropped after k polls for every k up to completion; race: each of 6 lifecycle transitions x every set of k operations from a 5-operation alphabet (always a dirty collection so flush/close write), every interleaving with <= B preemptions; oracle on the attributed mutation journal + retained-handle battery (10 mutating APIs, before and after set_read_only(false)) + reopen through the same database handle with the C01/C02 oracles; states = distinct (outcome vector, admission classification) kinds");
+    run.rule("fault: close / close_collection / flush with each of 4 unflushed acknowledged ops, every backend mutation of the call answered ErrBefore and ErrAfter: a non-Active handle rejects everything and writes nothing, reopening through the same database satisfies the C01/C02 oracles; poison-race: a call cancelled at any suspension point (a deviation) while another call is in flight, the caller then reopens through the same database - directly, and after a close_collection that fails on the poisoned handle - concurrently with the survivor, all schedules within the bound: the reopened handle satisfies the C01/C02 oracles with the survivor acknowledged and the victim all-or-nothing; cancel: each of 14 mutating APIs (clean and dirty collection) dropped after k polls for every k up to completion; race: each of 6 lifecycle transitions x every set of k operations from a 5-operation alphabet (always a dirty collection so flush/close write), every interleaving with <= B preemptions; oracle on the attributed mutation journal + retained-handle battery (10 mutating APIs, before and after set_read_only(false)) + reopen through the same database handle with the C01/C02 oracles; states = distinct (outcome vector, admission classification) kinds");
     run.assume("await granularity (one scheduling point per backend call and per async-lock wait); operations in one race set touch different documents so that a task blocked before its first backend call is waiting for admission (operation gate), not for a document lock");
     run.finish();
 }
